@@ -529,7 +529,7 @@ func init() {
 			}
 			return 0
 		}
-		n := 2500
+		n := 10000
 		if thorough() {
 			n = 80000
 		}
